@@ -43,7 +43,9 @@ def dump_desc(desc, path):
         import yaml
 
         with open(path, "w", encoding="utf-8") as fh:
-            yaml.safe_dump(desc, fh, sort_keys=False, allow_unicode=True)
+            # allow_unicode=False: every non-ASCII character is written as an escape; with allow_unicode=True PyYAML emits U+0085 / U+2028
+            # raw, which a YAML reader folds as line breaks - the rendering must denote exactly the description object
+            yaml.safe_dump(desc, fh, sort_keys=False, allow_unicode=False)
 
 
 def create_file(desc, fmt, workdir, name="in"):
@@ -54,11 +56,21 @@ def create_file(desc, fmt, workdir, name="in"):
     src = os.path.join(workdir, f"{name}.{fmt}")
     out = os.path.join(workdir, f"{name}.suit")
     dump_desc(desc, src)
-    if os.path.exists(out):
+    # output files are overwritten in a build directory: leave a LONGER earlier envelope at the output path (every other case)
+    _stale["n"] += 1
+    if _stale["n"] % 2:
+        with open(out, "wb") as fh:
+            fh.write(STALE_ENVELOPE)
+    elif os.path.exists(out):
         os.unlink(out)
     main(input_file=src, input_format="AUTO", output_file=out)
     with open(out, "rb") as fh:
         return fh.read()
+
+
+_stale = {"n": 0}
+# a syntactically valid but different (and long) envelope: tag 107, map with one 300 kB member
+STALE_ENVELOPE = bytes.fromhex("d86ba163237878") + b"\x5a\x00\x04\x93\xe0" + bytes(300000)
 
 
 def create_from_file(src, out):
@@ -74,8 +86,8 @@ def create_cli(desc, fmt, workdir, name="cli_in"):
     src = os.path.join(workdir, f"{name}.{fmt}")
     out = os.path.join(workdir, f"{name}.suit")
     dump_desc(desc, src)
-    if os.path.exists(out):
-        os.unlink(out)
+    with open(out, "wb") as fh:
+        fh.write(STALE_ENVELOPE)  # the CLI overwrites an existing, longer output file
     r = cli(["create", "--input-file", src, "--output-file", out], workdir)
     if r.returncode != 0 or not os.path.exists(out):
         raise RuntimeError(f"CLI create exit {r.returncode}: {r.stderr[-300:]}")
